@@ -692,8 +692,11 @@ impl Val for Conflict<u8> {
 pub trait Prov: 'static {
     const V: u8;
 }
+#[derive(Clone, Copy, Debug, Default, PartialEq, Eq)]
 pub struct Prov0;
+#[derive(Clone, Copy, Debug, Default, PartialEq, Eq)]
 pub struct Prov1;
+#[derive(Clone, Copy, Debug, Default, PartialEq, Eq)]
 pub struct Prov255;
 impl Prov for Prov0 {
     const V: u8 = 0;
